@@ -17,7 +17,7 @@ From Coq Require Import List Arith ZArith Bool.
 From T4V Require Import Base.Scalar.
 Import ListNotations.
 
-Inductive err := EZeroDiv | ELattice | EAssert | ELoop | EStop | EIndex.
+Inductive err := EZeroDiv | ELattice | EAssert | ELoop | EStop.
 Inductive res (A : Type) := Ok (a : A) | Err (e : err).
 Arguments Ok {A}. Arguments Err {A}.
 
@@ -283,26 +283,14 @@ End Num.
 (* x[0] != x[1] *)
 Definition nontrivial (r : Z * Z) : bool := negb (Z.eqb (fst r) (snd r)).
 
-(* LatticeBounds.dims() *)
-Definition bounds_dims (bounds : list (Z * Z)) : nat := List.length (filter nontrivial bounds).
-
-(* for i in range(n): range_ = domain.bounds[-1 - i]; raise if not trivial *)
-Fixpoint missing_loop (bounds : list (Z * Z)) (n i : nat) : res unit :=
-  match n with
-  | O => Ok tt
-  | S m =>
-      match nth_error (rev bounds) i with
-      | None => Err EIndex
-      | Some r => if nontrivial r then Err ELattice else missing_loop bounds m (S i)
-      end
-  end.
-
-(* if len(lat_base_vectors) != len(domain.bounds): ... ; [range(n)] is empty
-   for n <= 0, and n_missing_bounds = len(lat_base_vectors) - len(domain.bounds) *)
+(* n_vectors = len(lat_base_vectors)
+   if len(domain.bounds) < n_vectors: raise LatticeError
+   for range_ in list(domain.bounds)[n_vectors:]: raise LatticeError unless trivial
+   (the code as repaired by /repo commit 9b5a8f0) *)
 Definition domain_check (nvec : nat) (bounds : list (Z * Z)) : res unit :=
-  if Nat.eqb nvec (List.length bounds) then Ok tt
-  else if negb (Nat.eqb nvec (bounds_dims bounds)) then Err ELattice
-  else missing_loop bounds (Z.to_nat (Z.of_nat nvec - Z.of_nat (List.length bounds))) 0.
+  if Nat.ltb (List.length bounds) nvec then Err ELattice
+  else if forallb (fun r => negb (nontrivial r)) (skipn nvec bounds) then Ok tt
+  else Err ELattice.
 
 Section LatVec.
   Context {T : Type} (S : Scalar T).
